@@ -27,7 +27,16 @@ import (
 	"time"
 )
 
-const Root = "/verif"
+// Root is the framework directory (evidence/, replays/, findings live under it): the working
+// directory run.sh changes into, so that a background run from a snapshot does not write into /verif.
+var Root = func() string {
+	if wd, err := os.Getwd(); err == nil {
+		if _, err := os.Stat(filepath.Join(wd, "properties.jsonl")); err == nil {
+			return wd
+		}
+	}
+	return "/verif"
+}()
 
 // Failure is one failing case as recorded by a worker.
 type Failure struct {
